@@ -287,6 +287,9 @@ func (l *mlive) drainLines(what string, mu, mv int64, it graph.Lines, errs *[]st
 	if n >= 0 && cnt != n {
 		bad("Len() said %d, Next yielded %d", n, cnt)
 	}
+	if n >= 0 && it.Len() != 0 {
+		bad("Len()=%d on the exhausted iterator, want 0", it.Len())
+	}
 	it.Reset()
 	if n >= 0 && it.Len() != n {
 		bad("Len()=%d after Reset, want %d", it.Len(), n)
@@ -297,6 +300,12 @@ func (l *mlive) drainLines(what string, mu, mv int64, it graph.Lines, errs *[]st
 	}
 	if sl, ok := it.(graph.LineSlicer); ok {
 		c2 += len(sl.LineSlice())
+		if n >= 0 && it.Len() != 0 {
+			bad("Len()=%d after LineSlice handed out the remaining lines, want 0", it.Len())
+		}
+		if it.Next() {
+			bad("Next() true after LineSlice")
+		}
 	} else {
 		for it.Next() {
 			c2++
@@ -450,6 +459,9 @@ func (l *mlive) checkState(st *mFullState, ids []int64) []string {
 			if n >= 0 && it.Len() != n-cnt {
 				bad("Edges(): Len()=%d after %d of %d Next calls", it.Len(), cnt, n)
 			}
+		}
+		if n >= 0 && it.Len() != 0 {
+			bad("Edges(): Len()=%d on the exhausted iterator, want 0", it.Len())
 		}
 		want := map[edgeKey]bool{}
 		for _, p := range st.Pairs {
